@@ -98,3 +98,28 @@ package cluster
 //@   ensures [addr-unique] result == nil ==> forall j :: 0 <= j && j < len(callres("GetStores", 1)) ==> old(sstate(callres("GetStores", 1)[j])) == 2 || old(destroyed(callres("GetStores", 1)[j])) || old(callres("GetStores", 1)[j].meta.Id) == store.Id || old(callres("GetStores", 1)[j].meta.Address) != store.Address
 //@   loop 1 invariant forall j :: 0 <= j && j <= rangeindex ==> sstate(callres("GetStores", 1)[j]) == 2 || destroyed(callres("GetStores", 1)[j]) || callres("GetStores", 1)[j].meta.Id == store.Id || callres("GetStores", 1)[j].meta.Address != store.Address
 //@   modifies c.core.Stores.stores[*], ghost kvhas, ghost kvval
+
+// ================= C06: region heartbeats =================
+// Surroundings assumed not to touch the region cache: hot-spot statistics, region/label statistics, the prepare
+// checker, store status refresh (it only rewrites store records), log formatting helpers, prometheus counters.
+//@ opaque github.com/tikv/pd/server/statistics::(*HotStat).CheckWriteAsync, github.com/tikv/pd/server/statistics::(*HotStat).CheckReadAsync, github.com/tikv/pd/server/statistics::NewCheckExpiredItemTask, github.com/tikv/pd/server/statistics::NewCheckPeerTask, github.com/tikv/pd/server/core::NewPeerInfo
+//@ opaque github.com/tikv/pd/server/core::DiffRegionKeyInfo, github.com/tikv/pd/server/core::DiffRegionPeersInfo, github.com/tikv/pd/server/core::RegionToHexMeta, github.com/tikv/pd/server/core::SortedPeersStatsEqual, github.com/tikv/pd/server/core::SortedPeersEqual
+//@ opaque github.com/tikv/pd/server/statistics::(*RegionStatistics).ClearDefunctRegion, github.com/tikv/pd/server/statistics::(*LabelStatistics).ClearDefunctRegion, github.com/tikv/pd/server/statistics::(*RegionStatistics).Observe, (*RaftCluster).getRegionStoresLocked, (*RaftCluster).updateStoreStatusLocked, (*prepareChecker).collect
+
+// processRegionHeartbeat: an error from the staleness check is returned and nothing is written; the cache is only
+// written by a PutRegion that was re-validated under the cluster write lock with no release in between (other
+// heartbeats may have changed the cache at any moment before that lock was taken); every region displaced by the
+// put is deleted from storage, and a put that changes the meta is saved.
+//@ func (*RaftCluster).processRegionHeartbeat
+//@   props C06
+//@   requires c != nil && c.core != nil && cacheOK(c.core.Regions) && region != nil && allocated(region) && region.meta != nil && allocated(region.meta) && c.labelLevelStats != nil
+//@   atlock c.RWMutex havoc all core.RegionsInfo.*, all core.regionTree.*, all core.regionItem.*, all map[uint64]*core.regionItem, all map[uint64]*core.regionTree, ghost bthas : c.core != nil && cacheOK(c.core.Regions)
+//@   at PutRegion 1 assert [under-write-lock] held(c.RWMutex) && recv == c.core && arg0 == region
+//@   at DeleteRegion 1 assert [displaced-deleted] arg0 == callres("PutRegion", 1)[rangeindex + 1].meta
+//@   at SaveRegion 1 assert [saves-what-was-put] arg0 == region.meta
+//@   ensures [rejected-writes-nothing] result != nil ==> last("PutRegion") == 0 && last("SaveRegion") == 0 && last("DeleteRegion") == 0
+//@   ensures [new-or-newer-is-put-and-saved] result == nil && (callres("PreCheckPutRegion", 1, 0) == nil || ver(region) > ver(callres("PreCheckPutRegion", 1, 0)) || cver(region) > cver(callres("PreCheckPutRegion", 1, 0))) ==> count("PutRegion") == 1 && (c.storage != nil ==> count("SaveRegion") == 1)
+//@   ensures [every-displaced-region-deleted] result == nil && c.storage != nil && count("PutRegion") == 1 ==> count("DeleteRegion") == len(callres("PutRegion", 1))
+//@   ensures [at-most-one-put] count("PutRegion") <= 1
+//@   loop 6 invariant count("DeleteRegion") == rangeindex + 1
+//@   modifies *
